@@ -416,8 +416,8 @@ A_EXTERN void a_complex_div_imag(a_complex *ctx, a_complex x, a_real y);
 #if defined(A_HAVE_INLINE) || defined(LIBA_COMPLEX_C)
 A_INTERN void a_complex_div_imag(a_complex *ctx, a_complex x, a_real y)
 {
-    ctx->real = -x.imag / y;
-    ctx->imag = x.real / y;
+    ctx->real = x.imag / y;
+    ctx->imag = -x.real / y;
 }
 #endif /* A_HAVE_INLINE */
 #if !defined A_HAVE_INLINE || defined(LIBA_COMPLEX_C)
@@ -427,8 +427,8 @@ A_EXTERN void a_complex_div_imag_(a_complex *ctx, a_real x);
 A_INTERN void a_complex_div_imag_(a_complex *ctx, a_real x)
 {
     a_real const real = ctx->real;
-    ctx->real = -ctx->imag / x;
-    ctx->imag = real / x;
+    ctx->real = ctx->imag / x;
+    ctx->imag = -real / x;
 }
 #endif /* A_HAVE_INLINE */
 
